@@ -49,7 +49,7 @@ let policy_spec (f : (string * string) list) (mo : msg option) (mx : z) (stored 
       let bound = int64_of_z (table_bound m.m_hdr.h_rcode has u mx) in
       if Int64.compare l bound > 0 then Printf.sprintf "FAIL:lifetime-%Ld-above-table-%Ld" l bound
       else if Int64.compare l 0L <= 0 then "FAIL:lifetime-not-positive"
-      else if pre = "pos" && negative m then "FAIL:error-response-displaced-live-positive-entry"
+      else if pre = "pos" && negative m then "FAIL:error-response-displaced-live-positive-cp_entry"
       else "ok"
     end else "ok"
 
@@ -72,7 +72,7 @@ let run_policy parts =
   | Good mo ->
     (* otter's clock counts seconds since the first cache of the process was created: 0 here, so that clock + TTL
        cannot wrap uint32 in the model; a lifetime within a day of 2^32 s is flagged (wrap=1) because on the real
-       clock expiration wraps below "now" and the entry is expired at once (compared as "either") *)
+       clock expiration wraps below "now" and the cp_entry is expired at once (compared as "either") *)
     let t = z_of_int 500_000_000 in
     let eps = z_of_int 1000 in
     let k = n_of_int 1 in
@@ -116,7 +116,7 @@ let ttl_spec (m : msg) (delta : n) (got : (int * int64) list list) (rest : strin
     let bad = ref "ok" in
     List.iter2 (fun o g -> List.iter2 (fun r (ty, tt) ->
         if ty <> int_of_n r.r_type then bad := "FAIL:record-order"
-        else if is_opt r then (if tt <> n64 r.r_ttl then bad := "FAIL:opt-ttl-changed")
+        else if cp_is_opt r then (if tt <> n64 r.r_ttl then bad := "FAIL:opt-ttl-changed")
         else begin
           let bound = n64 (aged delta r.r_ttl) in
           if Int64.compare tt bound > 0 then bad := Printf.sprintf "FAIL:ttl-%Ld-above-bound-%Ld" tt bound
@@ -143,7 +143,7 @@ let run_ttl parts =
        Printf.sprintf "ttls=%s rest=same || spec=%s" s (ttl_spec m delta (parse_ttls s) "same")
      | "age" ->
        if not (pack_ok m) then "PACKERR" else begin
-         (* an entry stored `age` before the Get, through the model's own Get *)
+         (* an cp_entry stored `age` before the Get, through the model's own Get *)
          let now = z_of_int64 (Int64.mul (Int64.of_string (fld f "age")) 1_000_000L) in
          let e = { e_stored = Z0; e_expire = Z.add now (z_of_int (3600 * second)); e_msg = m; e_neg = false;
                    e_exp = n_of_int 1000000 } in
@@ -245,7 +245,7 @@ let tok_of (pfx : string) (m : msg) : string =
   Printf.sprintf "%s%d%s:%s" pfx (int_of_n m.m_hdr.h_rcode) (if m.m_hdr.h_tc then "t" else "")
     (String.concat "_" (List.map (fun r -> nstr r.r_ttl) m.m_an))
 
-(* the request path of handleReq, step by step on the model state: Get; on a miss the upstream result decides through
+(* the request path of handleReq, cp_step by cp_step on the model cp_state: Get; on a miss the upstream result decides through
    [handle_req_store] whether and what is stored *)
 let router_run (mx : z) (ops : qop list) (phase_ms : int) (collect : int) : string list =
   let t0_ms = 1_000_000 in
@@ -255,7 +255,7 @@ let router_run (mx : z) (ops : qop list) (phase_ms : int) (collect : int) : stri
   List.map (fun op ->
       let t = z_ns_of_ms (t0_ms + op.qat) in
       let k = n_of_int op.qkey in
-      let do_ev ev = let (st', o) = step mx !st ev in st := st'; o in
+      let do_ev ev = let (st', o) = cp_step mx !st ev in st := st'; o in
       ignore (do_ev (EvTick (n_of_int (clock_at op.qat))));
       match do_ev (EvGet (t, k)) with
       | OHit (m, _, _) -> ignore (handle_req_store PathHit); tok_of "C" m
